@@ -42,6 +42,7 @@ def run(tier):
     oracle_bad_cases = {ci for ci, *_ in bad_oracle}
 
     validated = 0
+    odd = []
     for ci, (case, v) in enumerate(zip(cases, verdicts)):
         chk.evaluations += 1
         st = v["status"] or "?"
@@ -54,6 +55,10 @@ def run(tier):
             if st == "refused":
                 r = (v.get("res") or {}).get("refused") or {}
                 chk.count("refused:" + str(r.get("etype")))
+            if st in ("basis-has-foreign-symbols", "unsupported-basis", "shape-mismatch"):
+                odd.append({"id": case["id"], "status": st, "detail": (v.get("res") or {}).get("detail"),
+                            "input": case.get("cfs") or {"text": case.get("text"), "goals": case.get("goals")},
+                            "closed_forms": (v.get("res") or {}).get("closed_forms")})
             continue
         res = v["res"]
         if v.get("model_errors"):
@@ -86,6 +91,8 @@ def run(tier):
             chk.violation(f"{case['id']}: reported invariant {b['poly_str']} = 0 is false at n={b['n']} "
                           f"(value {b['value']}); closed forms {res.get('closed_forms')}", C.replay_blob(case, v, b))
     chk.count("oracle-compared-values", n_oracle)
+    if odd:
+        chk.coverage["undecided_cases"] = odd[:20]
     chk.obligation("correspondence:basis-polynomials-validated-for-all-n", lean_ok and validated > 0 and
                    chk.counts.get("status:harness-error", 0) == 0, {"validated": validated})
     chk.assumptions = [
